@@ -18,8 +18,12 @@ import (
 	"google.golang.org/grpc/codes"
 	"google.golang.org/grpc/metadata"
 	"google.golang.org/grpc/status"
+	metav1 "k8s.io/apimachinery/pkg/apis/meta/v1"
+	"k8s.io/client-go/tools/leaderelection/resourcelock"
 
 	"github.com/kubewharf/kubebrain/pkg/backend"
+	"github.com/kubewharf/kubebrain/pkg/backend/election"
+	"github.com/kubewharf/kubebrain/pkg/server"
 	"github.com/kubewharf/kubebrain/pkg/server/brain"
 	"github.com/kubewharf/kubebrain/pkg/server/etcd"
 	"github.com/kubewharf/kubebrain/pkg/server/service/leader"
@@ -33,19 +37,19 @@ import (
 func init() {
 	Registry["C18"] = &Prop{
 		Plan: func(tier string) Plan {
-			return Plan{Level: "exploration", NCases: 16 + pick(tier, 16, 300), Batch: 2, CaseTimeout: 180,
-				Rule: "cases 0-15 (role matrix): every request type of both APIs (etcd Txn create/update/delete, Range get/list/count/partitions, Watch, range-stream watch, Lease; native Create/Update/Delete/Compact/Get/Range/Count/ListPartition/RangeStream/Watch) x {leader, follower} x {proxy on, off} x {leader reachable, unreachable, HTTP 400, HTTP 500}, handlers built over a call-recording Backend, the REAL revision syncer pointed at an httptest leader, a stub election and a recording proxy. " +
+			return Plan{Level: "exploration", NCases: c18Matrix + pick(tier, 16, 300), Batch: 2, CaseTimeout: 180,
+				Rule: "cases 0-19 (role matrix): every request type of both APIs (etcd Txn create/update/delete, Range get/list/count/partitions, Watch, range-stream watch, Lease; native Create/Update/Delete/Compact/Get/Range/Count/ListPartition/RangeStream/Watch) x {leader, follower} x {proxy on, off} x {leader reachable, unreachable, HTTP 400, HTTP 500, the recorded leader being a real node that is not leading (its real /status handler answers)}, handlers built over a call-recording Backend, the REAL revision syncer pointed at an httptest leader, a stub election and a recording proxy. " +
 					"oracle: on a follower the backend never sees Create/Update/Delete/Compact/Watch (request rejected Unavailable or handed to the proxy), every backend read is preceded by SetCurrentRevision(v) with v served by the leader during this very request, a failed sync gives an error and no backend read; on the leader writes reach the backend and no sync happens. " +
 					"further cases (two nodes): a leader node and a follower node over one store with the real revision syncer over HTTP; writers on the leader, concurrent readers on the follower; in half of them the verif hooks hold one reader between fetching and setting the revision while another sits between its own set and its backend read. oracle: the follower's response header >= the leader's committed revision sampled before the request began, and the data equals the reference snapshot at the header revision. " +
 					"non-trivial = matrix case with all request types exercised, or two-node case with >=20 follower reads overlapping leader writes; distinct by (role, proxy, leader mode) / (placement, read count)",
 				Assumptions: []string{"the etcd proxy is a recording stub (the real one needs an etcd client connection to the leader)", "in the two-node cases the election is a stub; the status handler is the real one's logic re-served from the leader's backend"},
-				MinConcl:    16 + pick(tier, 12, 250)}
+				MinConcl:    c18Matrix + pick(tier, 12, 250)}
 		},
 		Name: func(c *harness.Case) string {
-			if c.Index < 16 {
+			if c.Index < c18Matrix {
 				role := []string{"leader", "follower"}[c.Index%2]
 				proxy := []string{"proxy-off", "proxy-on"}[(c.Index/2)%2]
-				mode := []string{"reachable", "unreachable", "http400", "http500"}[(c.Index/4)%4]
+				mode := c18Modes[(c.Index/4)%len(c18Modes)]
 				return "matrix/" + role + "/" + proxy + "/" + mode
 			}
 			if c.Index%2 == 0 {
@@ -54,7 +58,7 @@ func init() {
 			return "two-nodes/stress"
 		},
 		Run: func(c *harness.Case) {
-			if c.Index < 16 {
+			if c.Index < c18Matrix {
 				runC18Matrix(c)
 			} else {
 				runC18TwoNodes(c, c.Index%2 == 0)
@@ -62,6 +66,10 @@ func init() {
 		},
 	}
 }
+
+var c18Modes = []string{"reachable", "unreachable", "http400", "http500", "recorded-leader-is-not-leading"}
+
+const c18Matrix = 20
 
 // peerSvc composes the real revision syncer with a stub election and a recording proxy.
 type peerSvc struct {
@@ -116,7 +124,7 @@ func (f *fakeBrainWatch) Send(*proto.WatchResponse) error { f.n++; return nil }
 func runC18Matrix(c *harness.Case) {
 	isLeader := c.Index%2 == 0
 	proxyOn := (c.Index/2)%2 == 1
-	mode := []string{"reachable", "unreachable", "http400", "http500"}[(c.Index/4)%4]
+	mode := c18Modes[(c.Index/4)%len(c18Modes)]
 	eng, _ := harness.NewEngine("memkv")
 	defer eng.Close()
 	n := harness.NewNode(harness.NodeOpts{KV: eng.KV, Config: backend.Config{EnableEtcdCompatibility: true}})
@@ -151,6 +159,22 @@ func runC18Matrix(c *harness.Case) {
 		ts.Close()
 	} else {
 		defer ts.Close()
+	}
+	if mode == "recorded-leader-is-not-leading" {
+		// the election record names a node that is not leading (it lost the lock to somebody else, or has not
+		// started leading yet): its REAL /status handler (pkg/server) answers, not a stand-in
+		eng2, _ := harness.NewEngine("memkv")
+		defer eng2.Close()
+		other := election.NewResourceLockManager(election.Config{Prefix: harness.Prefix, Identity: "somebody-else:2380", Timeout: time.Second}, eng2.KV).GetResourceLock()
+		_ = other.Create(resourcelock.LeaderElectionRecord{HolderIdentity: "somebody-else:2380", LeaseDurationSeconds: 3600,
+			AcquireTime: metav1.NewTime(time.Now()), RenewTime: metav1.NewTime(time.Now())})
+		x := harness.NewNode(harness.NodeOpts{KV: eng2.KV, Config: backend.Config{Identity: "node-x:2380"}})
+		defer x.Retire()
+		xs := server.NewServer(x.B, x.Metrics, server.Config{}) // starts the real campaign, which cannot win for an hour
+		h := xs.GetPeerHttpHandlers()["/status"]
+		ts2 := httptest.NewServer(h)
+		defer ts2.Close()
+		addr = strings.TrimPrefix(ts2.URL, "http://")
 	}
 	stub := &leader.Stub{ElectionInfo: leader.ElectionInfo{LeaderAddress: addr, IsLeader: isLeader}}
 	ps := &peerSvc{RevisionSyncer: revision.NewRevisionSyncer(rec, n.Metrics, stub, nil), LeaderElection: stub, proxyOn: proxyOn}
